@@ -654,6 +654,11 @@ func (ed Editor) InsertTwoColumnsOpts(pos int, leftText string, rightText string
 		leftColPercent = 1.0
 	}
 
+	// a negative minimum distance between the columns is no minimum at all
+	if minSpaceBetween < 0 {
+		minSpaceBetween = 0
+	}
+
 	// it unreasonable to wrap each column to anything less than 2;
 	// need at least 1 char for the next in a word and 1 for a continuation
 	// dash. In addition, there must be enough space for the minSpaceBetween, so
